@@ -23,6 +23,7 @@ Plan gen_corrupt(uint64_t, const string &); void exec_corrupt(const Plan &, RunO
 Plan gen_logfmt(uint64_t, const string &); void exec_logfmt(const Plan &, RunOut *);
 Plan gen_repair(uint64_t, const string &); void exec_repair(const Plan &, RunOut *);
 Plan gen_life(uint64_t, const string &); void exec_life(const Plan &, RunOut *);
+Plan gen_shard(uint64_t, const string &); void exec_shard(const Plan &, RunOut *);
 
 static const Mode g_modes[] = {
   {"model", gen_model, exec_model},
@@ -33,6 +34,7 @@ static const Mode g_modes[] = {
   {"logfmt", gen_logfmt, exec_logfmt},
   {"repair", gen_repair, exec_repair},
   {"life", gen_life, exec_life},
+  {"shard", gen_shard, exec_shard},
 };
 const Mode *find_mode(const string &n) { for (auto &m : g_modes) if (n == m.name) return &m; return nullptr; }
 
